@@ -273,8 +273,8 @@ pub fn hist_extra(stats: &Stats) -> Json {
         "logical_steps_unit": "compilations executed inside history processes",
         "simulated_time_note": "rsass has no clock, timer or deadline; time is reported as logical steps",
         "components": {
-            "real": ["rsass (std build), std::sync primitives, process-wide statics MODULES/FUNCTIONS/CALL_ID, fastrand, one fresh OS process per history and per reference, real OS threads started one after another"],
-            "stub": ["Loader: SimLoader over the item's mock table, with short reads / EINTR and aborting faults"],
+            "real": ["rsass (instrumented copy, shims in std mode = the std items themselves), std::sync primitives, process-wide statics MODULES/FUNCTIONS/CALL_ID, fastrand, one fresh OS process per history and per reference, real OS threads started one after another"],
+            "stub": ["Loader: SimLoader over the item's mock table, with short reads / EINTR and aborting faults", "std::time -> settable clock, a different one for every compilation of a history (reference: a fixed one)"],
             "not_run": ["rsass-cli", "FsLoader"],
         },
     })
